@@ -177,10 +177,72 @@ pub fn c11(tier: Tier, seed: u64) -> i32 {
     rep.finish()
 }
 
+/// Directed adaptive-fee scenarios the random workload practically never produces: swaps over empty pools
+/// that (a) end strictly inside the first tick of a tick group in the b-to-a direction, through a skip step,
+/// and (b) travel so many tick groups in one go that `groups * 10_000` leaves 32 bits (tick group sizes 1
+/// and 2, distance 429_497.. groups), each followed by swaps that make the stored variables matter.
+fn c14_directed(seed: u64) -> Acc {
+    use crate::monitors::c14::C14;
+    use crate::world::World;
+    use whirlpool::math::sqrt_price_from_tick_index;
+    let mut acc = Acc::default();
+    let mut mon = C14;
+    let mut w = World::new(crate::rnd::rng(seed));
+    let c = w.add_config(300);
+    let u = w.add_user();
+    let mut n = 0u16;
+    for gs in [1u16, 2, 64] {
+        for control in [4000u32, 0] {
+            for max_acc in [350_000u32, 1_000_000] {
+                let (m1, m2) = (w.add_spl_mint(6), w.add_spl_mint(6));
+                n += 1;
+                // a far jump must fit into the three tick arrays of one swap: wide spacing for the small group sizes
+                let sp: u16 = if gs <= 2 { 4096 } else { 64 };
+                let t0: i32 = if gs == 2 { 430_080 } else { 217_088 };
+                let Ok(p) = w.add_adaptive_pool(c, m1, m2, 2000 + n, sp, 3000, (30, 600, 5000, control, max_acc, gs, 64), sqrt_price_from_tick_index(t0), None) else {
+                    acc.count("harness_errors");
+                    continue;
+                };
+                let mut go = |w: &mut World, limit: u128, a_to_b: bool, dt: i64, acc: &mut Acc, mon: &mut C14| -> bool {
+                    w.advance_clock(dt);
+                    let ix = w.swap_ix(p, u, 1_000_000, 0, limit, true, a_to_b, gs != 2);
+                    let o = w.exec(ix);
+                    let ok = o.ok();
+                    acc.evaluations += 1;
+                    crate::hist::Monitor::after(mon, w, &o, acc);
+                    ok
+                };
+                // (a) b-to-a stops strictly inside a tick whose index is a multiple of the group size
+                for k in [1i32, 2, 5] {
+                    let t = t0 + k * gs as i32 * if gs == 64 { 1 } else { 64 };
+                    if go(&mut w, sqrt_price_from_tick_index(t) + 1000, false, 1, &mut acc, &mut mon) {
+                        acc.count("directed_inside_tick_stops");
+                    }
+                    // the stored accumulator decays into the reference of the next swap
+                    go(&mut w, sqrt_price_from_tick_index(t + 3 * gs as i32) + 7, false, 45, &mut acc, &mut mon);
+                    go(&mut w, sqrt_price_from_tick_index(t0), true, 700, &mut acc, &mut mon);
+                }
+                // (b) far jumps: group distance just past 2^32 / 10_000 (and past twice that where the range allows)
+                if gs <= 2 {
+                    for j in [0i32, 1, (max_acc / 10_000) as i32 - 1, (max_acc / 10_000) as i32 + 3] {
+                        let target = t0 - (429_497 + j) * gs as i32;
+                        if go(&mut w, sqrt_price_from_tick_index(target), true, 4000, &mut acc, &mut mon) {
+                            acc.count("directed_far_jumps");
+                        }
+                        go(&mut w, sqrt_price_from_tick_index(target - 3 * gs as i32), true, 10, &mut acc, &mut mon);
+                        go(&mut w, sqrt_price_from_tick_index(t0), false, 4000, &mut acc, &mut mon);
+                    }
+                }
+            }
+        }
+    }
+    acc
+}
+
 pub fn c14(tier: Tier, seed: u64) -> i32 {
     use crate::monitors::c14::C14;
     let mut rep = Report::new("C14", tier, seed);
-    rep.rule = "history workload on adaptive-fee pools (constants drawn from the validity rules incl. control factor 0 and extremes, tick group sizes dividing the spacing, trade-enable timestamps in the past/future, clock gaps in every class: < filter, < decay, >= decay, > 1h): for every successful swap leg an independent re-statement of the documented schedule is applied to the per-step hook records: the reference (vol, group, timestamp) expected from the pre-swap oracle variables and the clock by the filter/decay/reset rules must equal the stored one; every step with a non-zero amount lies in one tick group (or in a span over which the schedule is constant) and carries static + ceil(cf*(acc*size)^2/1e13) capped at 100000 with acc = min(vref + |g-gref|*10000, max); rates within [static, 100000]; accumulator <= max; stored accumulator = that of the end group or a neighbour; major-swap timestamp set iff the price moved by the threshold (2e-9 band on log price); control factor 0 => static rate and no extra step splitting; no trading before trade_enable_timestamp. distinct = (instruction, direction, elapsed-time class, control factor zero?, saturated?, #steps)".into();
+    rep.rule = "history workload on adaptive-fee pools (constants drawn from the validity rules incl. control factor 0 and extremes, tick group sizes dividing the spacing, trade-enable timestamps in the past/future, clock gaps in every class: < filter, < decay, >= decay, > 1h) plus directed scenarios on empty pools (b-to-a swaps stopping strictly inside the first tick of a tick group through a skip step; single swaps travelling 429_497+ tick groups with group sizes 1 and 2, where groups x 10_000 leaves 32 bits): for every successful swap leg an independent re-statement of the documented schedule is applied to the per-step hook records: the reference (vol, group, timestamp) expected from the pre-swap oracle variables and the clock by the filter/decay/reset rules must equal the stored one; every step with a non-zero amount lies in one tick group (or in a span over which the schedule is constant) and carries static + ceil(cf*(acc*size)^2/1e13) capped at 100000 with acc = min(vref + |g-gref|*10000, max); rates within [static, 100000]; accumulator <= max; stored accumulator = that of the end group or a neighbour; major-swap timestamp set iff the price moved by the threshold (2e-9 band on log price); control factor 0 => static rate and no extra step splitting; no trading before trade_enable_timestamp. distinct = (instruction, direction, elapsed-time class, control factor zero?, saturated?, #steps)".into();
     rep.assumptions = vec![SVM_ASSUMPTION.into(), "oracle variables are reached through sequences of swaps and clock gaps (no direct seeding)".into()];
     let per_shard = tier.pick(72, 1800);
     let acc = run_histories(
@@ -189,7 +251,11 @@ pub fn c14(tier: Tier, seed: u64) -> i32 {
         move |_r| HistCfg { ops: 140, pools: 2, spl_only: true, allow_adaptive: true, all_adaptive: true, spacings: vec![1, 8, 64, 128, 256], w_swap: 58, w_two_hop: 6, w_liq: 18, w_fees: 2, w_lifecycle: 2, w_clock: 14, w_setters: 1, w_burst: 1, ..Default::default() },
         || vec![Box::new(C14) as Box<dyn Monitor>],
     );
+    let mut acc = acc;
+    acc.merge(c14_directed(seed ^ 0x14));
     rep.acc = acc;
+    rep.floor("directed_far_jumps", 8);
+    rep.floor("directed_inside_tick_stops", 12);
     rep.floor("adaptive_swaps", 3000);
     rep.floor("adaptive_steps_checked", 5000);
     rep.floor("reference_class_filter", 300);
